@@ -675,6 +675,9 @@ class Item:
                 rv = "vx_recv" if k == 1 else "vx_recv%d" % k
                 pre = "let %s = %s;\n    " % (rv, r)
                 r = rv
+            if mode == "ref" and pat.startswith("&") and re.match(r"&\s*[A-Za-z_][A-Za-z0-9_]*$", pat):
+                # `for &x in RECV`: the element is copied out
+                pat, mode = pat[1:].strip(), "val"
             bind = "let %s = %s%s[%s];" % (pat, {"ref": "&", "mut": "&mut ", "val": ""}[mode], r, iv)
         self.rewrite(s, bopen + 1, "%slet mut %s: usize = 0;\n    while %s < %s.len()\n    /*@loop*/\n    {\n      %s/*@body*/" % (pre, iv, iv, r, bind), "R3-for-index")
         for c in re.finditer(r"\bcontinue\b", self.m[bopen + 1:bclose]):
@@ -704,6 +707,20 @@ class Item:
         if setmode:
             recv = "vx_set_elems(%s)" % recv
         self.rewrite(s, bopen + 1, "let mut %s = vx_into_iter(%s);/*@pre*/\n    loop\n    /*@loop*/\n    {\n      let Some(%s) = %s.next() else { break; };/*@body*/" % (iv, recv, pat, iv), "R3-for-owned")
+
+    def r3_for_iter(self, fn, k):
+        """for X in ITER { BODY } where ITER is an iterator VALUE (IntoIterator is the identity on iterators)
+        ==>  let mut vx_it = ITER; loop { let Some(X) = vx_it.next() else { break; }; BODY }   (the definition of `for`)"""
+        ls = self.loops(fn)
+        if k > len(ls) or ls[k - 1][0] != "for":
+            raise Undecided("LOST-ANCHOR: R3 for-iter loop %d of fn %s in %s" % (k, fn, self.where()))
+        _, s, bopen, bclose = ls[k - 1]
+        mo = re.match(r"for\s+(.+?)\s+in\s+(.+?)\s*$", self.text[s:bopen], re.S)
+        if not mo:
+            raise Undecided("R3 for-iter: header not recognised")
+        pat, recv = mo.group(1).strip(), mo.group(2).strip()
+        iv = "vx_it" if k == 1 else "vx_it%d" % k
+        self.rewrite(s, bopen + 1, "let mut %s = %s;/*@pre*/\n    loop\n    /*@loop*/\n    {\n      let Some(%s) = %s.next() else { break; };/*@body*/" % (iv, recv, pat, iv), "R3-for-iter")
 
     def r3_for_by_ref(self, fn, k):
         """for X in RECV.by_ref() { BODY }  ==>  loop { let Some(X) = RECV.next() else { break; }; BODY }
@@ -799,7 +816,8 @@ class Item:
     # -- output ----------------------------------------------------------------------------------
     def render(self):
         # attributes bind to the item that follows: emit them after any other ghost text woven at the same position
-        es = sorted(self.edits, key=lambda e: (e[0], e[1], 1 if e[3] == "ghost-attr" else 0))
+        # (item attributes given with `pre` go before an R1 `pub` inserted at the item start)
+        es = sorted(self.edits, key=lambda e: (e[0], e[1], 1 if e[3] == "ghost-attr" else (-1 if (e[0] == 0 and e[3] == "ghost") else 0)))
         for a, b in zip(es, es[1:]):
             if a[1] > b[0]:
                 raise Undecided("overlapping weave edits in %s at %d/%d" % (self.where(), a[0], b[0]))
